@@ -4,6 +4,7 @@
 import Driver.Wire
 import ErgoModel.Json
 import ErgoModel.Path
+import ErgoModel.Render
 open Lean Ergo Ergo.Wire Ergo.Storage
 
 def handle (j : Json) : Json :=
@@ -45,6 +46,32 @@ def handle (j : Json) : Json :=
         ("claimed", match r.out.claimed with | some t => Json.str t.id | none => Json.null),
         ("pruned", Json.arr (r.out.pruned.map Json.str).toArray),
         ("post", post)]
+  | "render" =>
+    let cellsOf (k : String) : Ergo.Render.Str := (arr j k).filterMap fun x => match x with
+      | .arr #[.num c, .num w] => some ⟨Char.ofNat c.mantissa.toNat, w.mantissa.toNat⟩ | _ => none
+    let ell : Ergo.Render.Cell := match j.getObjVal? "ell" with
+      | .ok (.arr #[.num c, .num w]) => ⟨Char.ofNat c.mantissa.toNat, w.mantissa.toNat⟩ | _ => ⟨'…', 1⟩
+    let width : Int := (j.getObjValAs? Int "width").toOption.getD 80
+    let line := Ergo.Render.formatTreeLine ell { base := cellsOf "base", title := cellsOf "title", annotation := cellsOf "ann",
+                                                  blocker := cellsOf "blocker", id := cellsOf "id", width := width }
+    let lens : List Nat := (arr j "abbr_lens").filterMap fun x => match x with | .num n => some n.mantissa.toNat | _ => none
+    let abN := (j.getObjValAs? Nat "abbr_n").toOption.getD 0
+    let kept := Ergo.Render.abbreviateKeep lens abN
+    let total := lens.sum
+    let abBytes := if total ≤ abN then total else (lens.take kept).sum + 3
+    let inside := false
+    let rowJson (r : Ergo.Render.Row) : Json := Json.mkObj [("id", r.id), ("child", r.child), ("last", r.last)]
+    let views : Json := match replay ((arr j "events").map eventOf) with
+      | .error _ => Json.mkObj []
+      | .ok g =>
+        let (a, b, c, d, e, f) := Ergo.Render.stats g g.tasks
+        Json.mkObj [("all", Json.arr ((Ergo.Render.rows g .all).map rowJson).toArray),
+          ("active", Json.arr ((Ergo.Render.rows g .active).map rowJson).toArray),
+          ("ready", Json.arr ((Ergo.Render.rows g .ready).map rowJson).toArray),
+          ("stats", Json.arr #[a, b, c, d, e, f]),
+          ("topo", Json.arr ((Ergo.Render.topoSort g (g.tasks.filter fun t => !t.isEpic && t.epicId == "")).map fun t => Json.str t.id).toArray)]
+    Json.mkObj [("line", Json.arr (line.map fun c => Json.num c.ch.toNat).toArray), ("line_width", Json.num (Ergo.Render.visLen line)),
+      ("abbr_valid", !inside), ("abbr_bytes", abBytes), ("views", views)]
   | "path" =>
     let cpsOf (k : String) : List Char := (arr j k).filterMap fun x => match x with
       | .num n => some (Char.ofNat n.mantissa.toNat) | _ => none
